@@ -292,6 +292,18 @@ def snapshot_state(
         for idx, cond in enumerate(ex.path.conditions):
             if idx in ex.path.sliced:
                 m.update(int.to_bytes(cond.get_id(), length=32))
+        # block fields that cheatcodes (vm.fee/chainId/coinbase/prevrandao/roll) can change in a target function
+        # note: the timestamp is left out, it is replaced by a fresh symbol after every invariant transaction
+        block = ex.block
+        for field in (
+            block.basefee,
+            block.chainid,
+            block.coinbase,
+            block.difficulty,
+            block.gaslimit,
+            block.number,
+        ):
+            m.update(int.to_bytes(BV(field).as_z3().get_id(), length=32))
     path_hash = m.digest()
 
     return ByteVec(balance_hash + code_hash + storage_hash + path_hash)
